@@ -8,9 +8,10 @@
    What the model cannot say: "within its configured timeout" and "its goroutines exit" are real-time / blocking
    statements (Teardown LTS, Props/Teardown.v); their functional halves are C12_timeout_answers, C12_rl_exit_closes,
    C12_wl_done_enabled, C12_check_answers below.
-   Statements of Props/C12_statements.v that were WRONG and are corrected here (counterexamples as Examples):
-   c12_no_stranding (a caller between the two selects of Conn.Write is not answered yet: its second select does it),
-   c12_nil_means_response (200 <= status: a 1xx block with END_STREAM is delivered as nil; see C12_ex_1xx_end_stream). *)
+   Statement of Props/C12_statements.v that was WRONG and is corrected here (counterexample as an Example):
+   c12_no_stranding (a caller between the two selects of Conn.Write is not answered yet: its second select does it).
+   c12_nil_means_response (200 <= status) used to be false on the code (a 1xx block with END_STREAM was delivered as nil,
+   status 100); that defect is fixed (/repo aaab76f) and C12_nil_complete now says a FINAL status was seen. *)
 From H2V Require Import Base.Bytes Base.MachineInt Base.Result Gen.GenConsts Impl.Hpack Impl.ServerConn Impl.ClientConn
      Impl.ClientInst Proofs.CliBase Proofs.CliDefs Proofs.CliResInv Proofs.CliResStep Proofs.CliResMoves Proofs.CliResThms
      Proofs.CliResGoAway Proofs.CliResNil Proofs.CliResInst.
@@ -117,8 +118,9 @@ Print Assumptions C12_write_after_close.
    the running read loop, on the open socket, took in a frame fr of that stream, then on the request table, such that
    - END_STREAM was seen (es_seen): fr is a DATA frame with END_STREAM, or a HEADERS frame with END_HEADERS and
      END_STREAM, or the CONTINUATION frame with END_HEADERS of a block whose HEADERS frame had END_STREAM;
-   - a status was seen (status_seen): a final status earlier (gotStatus of the request's Ctx), or a :status field in the
-     header block fr completes (the connection's hdrStatus register after readStream is not 0).
+   - a FINAL status was seen (status_seen): earlier (gotStatus of the request's Ctx), or the header block fr completes
+     carries a :status >= 200 (the connection's hdrStatus register after readStream); an interim 1xx block cannot be
+     what ends the stream.
    (That it is that step which put nil into Err, and that nothing else in the model ever does, is the proof: nil_inv_run.) *)
 Theorem C12_nil_complete : forall cfg first evs tag retry resp,
   In (tag, retry, CENil, resp) (results_of (cli_tr cfg first evs)) ->
@@ -134,10 +136,10 @@ Print Assumptions C12_nil_complete.
 (* NOT PROVED (C12_nil_complete is its partial): the same in terms of the Response handed back. What is missing is the
    link, across the frames of one header block, between the connection's hdrStatus register and the status stored in the
    request's Response (readHeaderField sets both together, under the Ctx taken by dispatch), and that the Response is
-   not touched between finish and the caller's receive. "200 <=" instead of "100 <=" would be FALSE: C12_ex_1xx_end_stream *)
+   not touched between finish and the caller's receive. *)
 Definition C12_nil_status_statement : Prop :=
   forall cfg first evs tag retry resp,
-    In (tag, retry, CENil, resp) (results_of (cli_tr cfg first evs)) -> (100 <= cr_status resp <= 999)%Z.
+    In (tag, retry, CENil, resp) (results_of (cli_tr cfg first evs)) -> (200 <= cr_status resp <= 999)%Z.
 
 (* ---------- (c) no self-deadlock, no goroutine parked for ever, no panic ---------- *)
 Theorem C12_no_self_deadlock : forall cfg first evs, existsb is_deadlock (cli_tr cfg first evs) = false.
@@ -261,10 +263,13 @@ Example C12_ex_pool :
   = ([COPoolPut 0], []).
 Proof. vm_compute. reflexivity. Qed.
 
-(* KNOWN (left as an observation in the Go code): a 1xx header block carrying END_STREAM is delivered as a success, so
-   "nil only with a final status" (c12_nil_means_response: 200 <= status) is false on the model and on the code *)
+(* a 1xx header block carrying END_STREAM is malformed (it used to be delivered as a success with status 100: fixed);
+   a 1xx block followed by the final response is fine *)
 Example C12_ex_1xx_end_stream :
-  map (fun r => (snd (fst r), cr_status (snd r)))
-      (results_of (cli_tr ex_cfg [] [CEvSubmit 0 ex_get true; CEvWLIn; CEvRL (ex_headers 1 true [8; 3; 49; 48; 48]); CEvReceive 0]))
-  = [(CENil, 100%Z)].
+  (map (fun r => (snd (fst r), cr_status (snd r)))
+       (results_of (cli_tr ex_cfg [] [CEvSubmit 0 ex_get true; CEvWLIn; CEvRL (ex_headers 1 true [8; 3; 49; 48; 48]); CEvReceive 0])),
+   map (fun r => (snd (fst r), cr_status (snd r)))
+       (results_of (cli_tr ex_cfg [] [CEvSubmit 0 ex_get true; CEvWLIn; CEvRL (ex_headers 1 false [8; 3; 49; 48; 48]);
+                                      CEvRL (ex_headers 1 true ex_block_200); CEvReceive 0])))
+  = ([(CEMalformed, 100%Z)], [(CENil, 200%Z)]).
 Proof. vm_compute. reflexivity. Qed.
